@@ -347,6 +347,21 @@ func runC19(c *run.Ctx) {
 				}
 			})
 		}
+		// splices of the documented examples: the beginning of one with the end of another (what an over-factored
+		// alternation such as (abs|text)?(top|middle|bottom) lets through), and one example repeated
+		for _, e1 := range m.examples {
+			for _, e2 := range m.examples {
+				r1, r2 := []rune(e1), []rune(e2)
+				if len(r1) > 16 || len(r2) > 16 {
+					continue
+				}
+				for i := 0; i <= len(r1); i++ {
+					for j := 0; j <= len(r2); j++ {
+						judge(string(r1[:i])+string(r2[j:]), true)
+					}
+				}
+			}
+		}
 		// edits of the documented examples
 		edits := func(s []rune, fn func([]rune)) {
 			for i := 0; i <= len(s); i++ {
